@@ -1,8 +1,120 @@
 import ApolloModel.Model.Proto
+import ApolloModel.Model.NameHeap
 open Apollo Apollo.Proto
 namespace Driver
+namespace C30
 
-/-- streams of property C30 are named `c30.<name>` -/
-def c30 (_stream : String) (_fs : List String) : String := "unknown-stream"
+/-- `97.98.99` → `abc`; the empty field is the empty text -/
+def decText (s : String) : List Char :=
+  if s.isEmpty then [] else (s.splitOn ".").filterMap fun x => x.toNat?.map Char.ofNat
+
+def encText (t : List Char) : String := ".".intercalate (t.map fun c => toString c.toNat)
+
+def nat (s : String) : Nat := s.toNat?.getD 0
+
+open Apollo.NameHeap in
+def decNameOp (f : String) : Option Op :=
+  match f.splitOn "," with
+  | ["nn", d, t] => some (.newName (nat d) (decText t))
+  | ["nc", d, t] => some (.newChecked (nat d) (decText t))
+  | ["ns", d, t] => some (.newStatic (nat d) (decText t))
+  | ["na", d, t] => some (.newArc (nat d) (decText t))
+  | ["fa", d, s] => some (.fromArc (nat d) (nat s))
+  | ["tf", d, s] => some (.tryFromArc (nat d) (nat s))
+  | ["cl", d, s] => some (.clone (nat d) (nat s))
+  | ["dr", s] => some (.drop (nat s))
+  | ["wl", s, fid, st, len] => some (.withLocation (nat s) (nat fid) (nat st) (nat len))
+  | ["tc", d, s] => some (.toClonedArc (nat d) (nat s))
+  | ["ia", d, s] => some (.intoArc (nat d) (nat s))
+  | _ => none
+
+open Apollo.NameHeap in
+def resStr : Res → String
+  | .ok => "ok" | .skip => "skip" | .none => "none" | .err => "err" | .panic => "PANIC"
+
+def locStr : Option (Nat × Nat × Nat) → String
+  | some (f, s, l) => s!"{f}:{s}:{l}"
+  | none => "~"
+
+open Apollo.NameHeap Apollo.Rc in
+def slotStr (st : St) : Slot → String
+  | .empty => "-"
+  | .name n =>
+    let text := match n.read st.heap with
+      | some t => encText t
+      | none => "UAF"
+    let cnt := match n.ptr with
+      | .heap c => toString (st.heap.strongOf c)
+      | .static _ => "_"
+    s!"N{text}/{locStr n.location}/{if n.isStatic then "S" else "H"}/{cnt}"
+  | .arc c _ =>
+    let text := match st.heap.read c with
+      | some t => encText t
+      | none => "UAF"
+    s!"A{text}/{st.heap.strongOf c}"
+
+open Apollo.NameHeap in
+def obsName (st : St) (r : Res) : String :=
+  resStr r ++ String.join (st.slots.map fun s => ";" ++ slotStr st s) ++
+    (if st.heap.uaf + st.heap.dfree + st.confused = 0 then "" else s!";GHOST{st.heap.uaf},{st.heap.dfree},{st.confused}")
+
+open Apollo.NameHeap in
+def runName (st : St) (acc : List String) : List Op → List String
+  | [] => acc.reverse
+  | op :: rest =>
+    let r := step st op
+    runName r.1 (obsName r.1 r.2 :: acc) rest
+
+open Apollo.NodeHeap in
+def decNodeOp (f : String) : Option Op :=
+  match f.splitOn "," with
+  | ["nw", d, v, fid, st, len] =>
+    some (.new (nat d) (nat v) (if nat fid == 0 then none else some (nat fid, nat st, nat len)))
+  | ["cl", d, s] => some (.clone (nat d) (nat s))
+  | ["dr", s] => some (.drop (nat s))
+  | ["mm", s, v] => some (.makeMut (nat s) (nat v))
+  | ["gm", s, v] => some (.getMut (nat s) (nat v))
+  | ["sl", d, s, v] => some (.sameLocation (nat d) (nat s) (nat v))
+  | _ => none
+
+open Apollo.NodeHeap in
+def nresStr : Res → String
+  | .ok => "ok" | .skip => "skip" | .none => "none" | .cloned => "cloned"
+
+/-- index of the first slot that holds the same cell (`ptr_eq` class representative) -/
+def firstIdx (slots : List (Option Nat)) (c : Nat) : Nat := slots.findIdx (· == some c)
+
+open Apollo.NodeHeap Apollo.Rc in
+def obsNode (st : St) (r : Res) : String :=
+  nresStr r ++ String.join (st.slots.map fun s =>
+    match s with
+    | none => ";-"
+    | some c =>
+      match st.heap.read c with
+      | some x => s!";{x.val}/{locStr x.loc}/{firstIdx st.slots c}/{if st.heap.strongOf c == 1 then "u" else "s"}"
+      | none => ";UAF") ++ s!";#{st.heap.liveCells}" ++
+    (if st.heap.uaf + st.heap.dfree = 0 then "" else s!";GHOST{st.heap.uaf},{st.heap.dfree}")
+
+open Apollo.NodeHeap in
+def runNode (st : St) (acc : List String) : List Op → List String
+  | [] => acc.reverse
+  | op :: rest =>
+    let r := step st op
+    runNode r.1 (obsNode r.1 r.2 :: acc) rest
+
+end C30
+
+/-- streams of property C30: `c30.name` and `c30.node`; fields = pool size, then one field per operation -/
+def c30 (stream : String) (fs : List String) : String :=
+  match stream, fs with
+  | "c30.name", pool :: ops =>
+    let ops := ops.map C30.decNameOp
+    if ops.any Option.isNone then "bad-case"
+    else "|".intercalate (C30.runName (NameHeap.init (C30.nat pool)) [] (ops.filterMap id))
+  | "c30.node", pool :: ops =>
+    let ops := ops.map C30.decNodeOp
+    if ops.any Option.isNone then "bad-case"
+    else "|".intercalate (C30.runNode (NodeHeap.init (C30.nat pool)) [] (ops.filterMap id))
+  | _, _ => "unknown-stream"
 
 end Driver
